@@ -384,3 +384,64 @@ def posterior_digest(s):
     for a in out[1:]:
         h.update(np.ascontiguousarray(a).tobytes())
     return h.hexdigest()
+
+
+def internal_digest(s):
+    """SHA-256 over the state the next batch depends on besides the samples:
+    random generator, iteration counters, transfer arrays and, for every
+    bound, all numeric attributes reachable through nautilus objects
+    (proposal caches, counters, member ellipsoids).  Never used as an oracle
+    - two objects may differ here and still behave the same - only to decide
+    where a check spends its budget (C05: a resumed object whose internal
+    state differs from the in-memory object it replaces is followed to the
+    end of the run instead of a few batches)."""
+    import hashlib
+    h = hashlib.sha256()
+    seen = set()
+
+    def walk(x, depth=0):
+        if depth > 8:
+            return
+        if x is None or isinstance(x, (bool, int, float, str, np.generic)):
+            if isinstance(x, (np.generic, int, float)) and not isinstance(
+                    x, (bool, np.bool_, str)):
+                h.update(np.float64(x).tobytes())
+            else:
+                h.update(repr(x).encode())
+        elif isinstance(x, np.ndarray):
+            if x.dtype == object:
+                for y in x.ravel():
+                    walk(y, depth + 1)
+            elif x.dtype.kind in 'fiub':
+                h.update(repr(x.size).encode())
+                h.update(np.ascontiguousarray(x, dtype=float).tobytes())
+            else:
+                h.update(x.tobytes())
+        elif isinstance(x, (list, tuple)):
+            h.update(b'[%d' % len(x))
+            for y in x:
+                walk(y, depth + 1)
+        elif isinstance(x, np.random.Generator):
+            h.update(repr(x.bit_generator.state).encode())
+        elif type(x).__module__.startswith('nautilus') and hasattr(
+                x, '__dict__'):
+            if id(x) in seen:
+                return
+            seen.add(id(x))
+            h.update(type(x).__name__.encode())
+            for k in sorted(vars(x)):
+                # block: split bookkeeping that is rebuilt, not stored;
+                # periodic: list in memory, array after a read
+                if k in ('pool', 'pool_s', 'pool_l', 'block', 'periodic'):
+                    continue
+                h.update(k.encode())
+                walk(vars(x)[k], depth + 1)
+        # anything else (scikit-learn networks, pools) is left out
+
+    walk(s.rng)
+    for k in ('n_update_iter', 'n_like_iter', 'shell_t', 'points_t',
+              'log_l_t'):
+        walk(getattr(s, k, None))
+    for b in s.bounds:
+        walk(b)
+    return h.hexdigest()
